@@ -927,6 +927,28 @@ pub mod verif {
             Some(VerifConnection { connection_id, tx, rx: Some(rx) })
         }
 
+        /// Same as [`Self::connection_established`] for an inbound connection
+        /// (`Endpoint::Listener`).
+        pub fn connection_established_inbound(
+            &self,
+            peer: PeerId,
+            connection_id: usize,
+            address: Multiaddr,
+            capacity: usize,
+        ) -> Option<VerifConnection> {
+            let connection_id = ConnectionId::from(connection_id);
+            let (tx, rx) = channel(capacity);
+            self.tx
+                .try_send(InnerTransportEvent::ConnectionEstablished {
+                    peer,
+                    connection: connection_id,
+                    endpoint: Endpoint::listener(address, connection_id),
+                    sender: ConnectionHandle::new(connection_id, tx.clone()),
+                })
+                .ok()?;
+            Some(VerifConnection { connection_id, tx, rx: Some(rx) })
+        }
+
         /// A connection object that the service was never told about (for events that arrive
         /// for a peer the service has no connection to).
         pub fn dummy_connection(&self, connection_id: usize) -> VerifConnection {
